@@ -13,6 +13,7 @@ include!("/verif/harness/common.rs");
 
 /// Stand-ins for the tokio endpoints that `msg()` only looks up.
 pub(crate) struct EnvSender;
+pub(crate) struct EnvReceiver;
 pub(crate) struct EnvRet;
 
 static mut ENV_ERR_SENT: bool = false;
@@ -79,7 +80,12 @@ impl PolicyClient for NoClient {
     async fn msg(&self, _to: usize, _r: MpcMsg) -> Result<(), NoClientErr> {
         Ok(())
     }
-    async fn output(&self, _to: url::Url, _r: Result<Literal, OutputError>) -> Result<(), NoClientErr> {
+    async fn output(&self, to: url::Url, r: Result<Literal, OutputError>) -> Result<(), NoClientErr> {
+        unsafe {
+            ENV_OUTPUTS += 1;
+            ENV_OUTPUT_WAS_ERR = r.is_err();
+        }
+        std::mem::forget((to, r));
         Ok(())
     }
 }
@@ -106,6 +112,7 @@ pub(crate) const RUN: usize = 3;
 pub(crate) const E_INVALID_STATE: u8 = 1;
 pub(crate) const E_LEADER_MISMATCH: u8 = 2;
 pub(crate) const E_HASH_MISMATCH: u8 = 3;
+pub(crate) const E_VALIDATE_FAILED: u8 = 4;
 pub(crate) const E_OTHER: u8 = 9;
 impl EnvErr for ScheduleError {
     const SLOT: usize = SCHEDULE;
@@ -113,6 +120,7 @@ impl EnvErr for ScheduleError {
         match self {
             ScheduleError::InvalidStateLeader { .. } | ScheduleError::InvalidStateFollower { .. } => E_INVALID_STATE,
             ScheduleError::LeaderMismatch { .. } => E_LEADER_MISMATCH,
+            ScheduleError::ValidateFailed { .. } => E_VALIDATE_FAILED,
             #[allow(unreachable_patterns)]
             _ => E_OTHER,
         }
@@ -179,6 +187,12 @@ fn reset_answers() {
         ANSWER = [[0; 2]; 4];
         ANSWERS = [[0; 2]; 4];
         ENV_LEADER_PROCEEDS = false;
+        ENV_OUTPUTS = 0;
+        ENV_OUTPUT_WAS_ERR = false;
+        ENV_PERMITS_TAKEN = 0;
+        ENV_PERMITS_RETURNED = 0;
+        ENV_CMD = 0;
+        ENV_CMDS = 0;
     }
 }
 /// (what, how often) was answered on the reply channel of kind `slot`; `marked`: the one whose
@@ -200,11 +214,101 @@ fn marked_ret<E>() -> Ret<E> {
     tx
 }
 
+// Awaits inside a cut. Every future the cut statements await is an environment future that is
+// ready at once (joined RPC rounds, the stand-in semaphore / command queue / client), so
+// `.await` becomes one poll with a no-op waker; a Pending future is a harness error (panic).
+pub(crate) trait EnvNow {
+    type Out;
+    fn env_now(self) -> Self::Out;
+}
+impl<F: std::future::Future> EnvNow for F {
+    type Out = F::Output;
+    fn env_now(self) -> F::Output {
+        let mut f = std::pin::pin!(self);
+        let mut cx = std::task::Context::from_waker(std::task::Waker::noop());
+        match f.as_mut().poll(&mut cx) {
+            std::task::Poll::Ready(v) => v,
+            std::task::Poll::Pending => panic!("environment future is not ready"),
+        }
+    }
+}
+
+static mut ENV_OUTPUTS: u8 = 0;
+static mut ENV_OUTPUT_WAS_ERR: bool = false;
+static mut ENV_PERMITS_TAKEN: u8 = 0;
+static mut ENV_PERMITS_RETURNED: u8 = 0;
+static mut ENV_CMD: u8 = 0;
+static mut ENV_CMDS: u8 = 0;
+static mut ENV_VALIDATE_FAILS: bool = false;
+static mut ENV_RUN_FAILS: bool = false;
+static mut ENV_CONSTS_FAIL: bool = false;
+
+/// the leader's slot of the concurrency budget: taking and returning it are recorded
+pub(crate) struct EnvSemaphore;
+pub(crate) struct EnvPermit;
+impl EnvSemaphore {
+    async fn acquire_owned(self: Arc<Self>) -> Result<EnvPermit, ()> {
+        unsafe { ENV_PERMITS_TAKEN += 1 };
+        Ok(EnvPermit)
+    }
+}
+impl Drop for EnvPermit {
+    fn drop(&mut self) {
+        unsafe { ENV_PERMITS_RETURNED += 1 };
+    }
+}
+
+/// the actor's own command queue: records which command was enqueued
+pub(crate) struct EnvCmdTx;
+#[derive(Debug)]
+pub(crate) struct EnvSendErr;
+pub(crate) const CMD_RUN: u8 = 1;
+pub(crate) const CMD_INTERNAL_CONSTS_SENT: u8 = 2;
+pub(crate) const CMD_STOP: u8 = 3;
+pub(crate) const CMD_CANCEL: u8 = 4;
+pub(crate) const CMD_OTHER: u8 = 9;
+impl EnvCmdTx {
+    async fn send(&self, cmd: PolicyCmd) -> Result<(), EnvSendErr> {
+        let code = match &cmd {
+            PolicyCmd::Run(..) => CMD_RUN,
+            PolicyCmd::InternalConstsSent => CMD_INTERNAL_CONSTS_SENT,
+            PolicyCmd::Stop => CMD_STOP,
+            PolicyCmd::Cancel(..) => CMD_CANCEL,
+            _ => CMD_OTHER,
+        };
+        unsafe {
+            ENV_CMD = code;
+            ENV_CMDS += 1;
+        }
+        std::mem::forget(cmd);
+        Ok(())
+    }
+}
+
+/// joined result of one RPC round to all peers (the futures themselves are async closures)
+fn env_validate_round() -> std::future::Ready<Result<Vec<()>, (usize, NoClientErr)>> {
+    std::future::ready(if unsafe { ENV_VALIDATE_FAILS } { Err((1, NoClientErr)) } else { Ok(Vec::new()) })
+}
+fn env_run_round() -> std::future::Ready<Result<Vec<()>, NoClientErr>> {
+    std::future::ready(if unsafe { ENV_RUN_FAILS } { Err(NoClientErr) } else { Ok(Vec::new()) })
+}
+fn env_consts_round() -> std::future::Ready<Result<Vec<()>, NoClientErr>> {
+    std::future::ready(if unsafe { ENV_CONSTS_FAIL } { Err(NoClientErr) } else { Ok(Vec::new()) })
+}
+
 /// `self` of the cut statements: the real state enum plus call records for the helpers.
 pub(crate) struct EnvState {
     state_kind: PolicyStateKind<NoClient>,
     client_builder: NoClient,
     start_span: Option<Span>,
+    concurrency: Arc<EnvSemaphore>,
+    permit: Option<EnvPermit>,
+    cmd_tx: EnvCmdTx,
+    // same names as the real fields, so that an edit which consults them still compiles
+    channel_senders: Vec<EnvSender>,
+    channel_receivers: Option<Vec<EnvReceiver>>,
+    consts: GarbleConsts,
+    tmp_dir_path: Option<PathBuf>,
     init_channel_calls: u8,
     insert_consts_calls: u8,
     check_consts_calls: u8,
@@ -212,11 +316,23 @@ pub(crate) struct EnvState {
 
 impl EnvState {
     fn new(state_kind: PolicyStateKind<NoClient>) -> Self {
-        EnvState { state_kind, client_builder: NoClient, start_span: None, init_channel_calls: 0, insert_consts_calls: 0, check_consts_calls: 0 }
+        EnvState { state_kind, client_builder: NoClient, start_span: None, concurrency: Arc::new(EnvSemaphore), permit: None, cmd_tx: EnvCmdTx, channel_senders: Vec::new(), channel_receivers: None, consts: HashMap::new(), tmp_dir_path: None, init_channel_calls: 0, insert_consts_calls: 0, check_consts_calls: 0 }
     }
     /// the real one replaces `channel_senders`/`channel_receivers` by fresh tokio queues
     fn init_channel(&mut self, _policy: &Policy) {
         self.init_channel_calls += 1;
+        self.channel_senders = Vec::new();
+        self.channel_receivers = Some(Vec::new());
+    }
+    /// a machine whose MPC task is running: two peers' endpoints live, receivers handed to the task
+    fn executing() -> Self {
+        let mut st = EnvState::new(executing());
+        st.channel_senders = vec![EnvSender, EnvSender];
+        st.channel_receivers = None;
+        st
+    }
+    fn endpoints_untouched(&self) -> bool {
+        self.init_channel_calls == 0 && self.channel_senders.len() == 2 && self.channel_receivers.is_none()
     }
     fn insert_consts(&mut self, _party: usize, consts: Consts) {
         self.insert_consts_calls += 1;
@@ -333,12 +449,12 @@ fn c14_schedule_duplicate_while_executing() {
     let is_leader: bool = kani::any();
     let (party, leader) = roles(is_leader);
     reset_answers();
-    let flow = seg_sc_schedule(EnvState::new(executing()), fake_policy(party, leader), open_ret(), fake_typed_program(), is_leader);
+    let flow = seg_sc_schedule(EnvState::executing(), fake_policy(party, leader), open_ret(), fake_typed_program(), is_leader);
     let proceeds = unsafe { ENV_LEADER_PROCEEDS };
     assert!(!proceeds, "C14:schedule:duplicate-leader-schedule-does-not-start-another-validation-round");
     match flow {
         ControlFlow::Continue(st) => {
-            assert!(st.init_channel_calls == 0, "C14:schedule:rejected-duplicate-leaves-the-mpc-channel-endpoints-untouched");
+            assert!(st.endpoints_untouched(), "C14:schedule:rejected-duplicate-leaves-the-mpc-channel-endpoints-untouched");
             assert!(matches!(st.state_kind, PolicyStateKind::Executing { .. }), "C14:schedule:rejected-duplicate-keeps-the-state");
             assert!(answer(SCHEDULE, false) == (E_INVALID_STATE, 1), "C14:schedule:duplicate-is-answered-with-an-invalid-state-error");
             kani::cover!(is_leader, "leader_duplicate_reachable");
@@ -394,9 +510,10 @@ fn validate_in_wrong_state(pending: bool) {
     let state = if pending { pending_validate() } else { executing() };
     let req = ValidateRequest { computation_id: Uuid::nil(), program_hash: String::from("a"), leader: kani::any() };
     reset_answers();
-    let flow = seg_sc_validate(EnvState::new(state), req, open_ret());
+    let flow = seg_sc_validate(if pending { EnvState::new(state) } else { std::mem::forget(state); EnvState::executing() }, req, open_ret());
     match flow {
         ControlFlow::Continue(st) => {
+            assert!(pending || st.endpoints_untouched(), "C14:validate:stray-validate-leaves-the-mpc-channel-endpoints-untouched");
             let kept = if pending { matches!(st.state_kind, PolicyStateKind::ValidateRequested { .. }) } else { matches!(st.state_kind, PolicyStateKind::Executing { .. }) };
             assert!(kept, "C14:validate:stray-validate-keeps-the-state");
             assert!(answer(VALIDATE, false) == (E_INVALID_STATE, 1), "C14:validate:stray-validate-is-answered-with-an-invalid-state-error");
@@ -541,9 +658,10 @@ fn consts_in_wrong_state(which: u8) {
         _ => executing(),
     };
     reset_answers();
-    let flow = seg_sc_consts(EnvState::new(state), fake_consts_request(kani::any()), open_ret());
+    let flow = seg_sc_consts(if which < 2 { EnvState::new(state) } else { std::mem::forget(state); EnvState::executing() }, fake_consts_request(kani::any()), open_ret());
     match flow {
         ControlFlow::Continue(st) => {
+            assert!(which < 2 || st.endpoints_untouched(), "C14:consts:stray-constants-leave-the-mpc-channel-endpoints-untouched");
             let kept = match which {
                 0 => matches!(st.state_kind, PolicyStateKind::Init),
                 1 => matches!(st.state_kind, PolicyStateKind::ValidateRequested { .. }),
@@ -582,4 +700,119 @@ fn c14_consts_before_validation() {
 #[kani::stub(std::collections::hash_map::RandomState::new, env_random_state)]
 fn c14_consts_while_executing() {
     consts_in_wrong_state(2)
+}
+
+// ------------------------------------------------------------------------------------------ failing RPCs (C17)
+
+fn policy_with_output(has_out: bool) -> Policy {
+    let mut p = fake_policy(0, 0);
+    if has_out {
+        p.output = Some(url::Url::parse("a:b").expect("parses"));
+    }
+    p
+}
+
+/// C17 - the leader's schedule() behind the validate round. A failed validate round: the caller
+/// gets ValidateFailed, no permit is taken, the machine ends. A failed run round: the policy ends
+/// at the leader (Break), the permit taken before the round is returned, the output destination
+/// (if any) gets exactly one error, and the leader does not hand over to run(). Both rounds fine:
+/// permit held, Validated, Run enqueued, nothing sent to the output destination.
+fn leader_rpcs(has_out: bool) {
+    let vf: bool = kani::any();
+    let rf: bool = kani::any();
+    reset_answers();
+    unsafe {
+        ENV_VALIDATE_FAILS = vf;
+        ENV_RUN_FAILS = rf;
+    }
+    let flow = seg_sc_leader_rpcs(EnvState::new(PolicyStateKind::Init), policy_with_output(has_out), open_ret(), fake_typed_program(), NoClient);
+    let (taken, returned, outputs, out_err, cmd, cmds) = unsafe { (ENV_PERMITS_TAKEN, ENV_PERMITS_RETURNED, ENV_OUTPUTS, ENV_OUTPUT_WAS_ERR, ENV_CMD, ENV_CMDS) };
+    if vf {
+        assert!(answer(SCHEDULE, false) == (E_VALIDATE_FAILED, 1), "C17:schedule:failed-validate-call-is-reported-to-the-schedule-caller");
+        assert!(matches!(flow, ControlFlow::Break(())), "C17:schedule:policy-ends-at-the-leader-when-a-validate-call-fails");
+        assert!(taken == returned && cmds == 0, "C17:schedule:no-permit-is-kept-and-no-run-is-started-after-a-failed-validate-call");
+        std::mem::forget(flow);
+    } else if rf {
+        assert!(answer(SCHEDULE, false) == (OK, 1), "C17:schedule:schedule-is-answered-after-the-validate-round");
+        assert!(matches!(flow, ControlFlow::Break(())), "C17:schedule:policy-ends-at-the-leader-when-a-run-call-fails");
+        assert!(taken == 1 && returned == 1, "C17:schedule:permit-is-returned-when-a-run-call-fails");
+        assert!(cmds == 0, "C17:schedule:leader-does-not-start-its-own-run-after-a-failed-run-call");
+        assert!(outputs == has_out as u8 && (!has_out || out_err), "C17:schedule:output-destination-gets-exactly-one-error-when-a-run-call-fails");
+        std::mem::forget(flow);
+    } else {
+        match flow {
+            ControlFlow::Continue(st) => {
+                assert!(answer(SCHEDULE, false) == (OK, 1), "C17:schedule:schedule-is-answered-after-the-validate-round");
+                assert!(taken == 1 && returned == 0 && st.permit.is_some(), "C17:schedule:leader-holds-exactly-one-permit-while-the-policy-runs");
+                assert!(matches!(st.state_kind, PolicyStateKind::Validated { .. }) && cmd == CMD_RUN && cmds == 1, "C17:schedule:leader-hands-over-to-run");
+                assert!(outputs == 0, "C17:schedule:nothing-is-sent-to-the-output-destination-yet");
+                std::mem::forget(st);
+            }
+            ControlFlow::Break(()) => assert!(false, "C17:schedule:policy-keeps-running-when-all-calls-succeed"),
+        }
+    }
+}
+
+#[kani::proof]
+#[kani::unwind(12)]
+#[kani::stub(std::fmt::format, no_format)]
+#[kani::stub(std::collections::hash_map::RandomState::new, env_random_state)]
+fn c17_leader_rpc_failures_without_output_destination() {
+    leader_rpcs(false);
+    kani::cover!(unsafe { ENV_RUN_FAILS && !ENV_VALIDATE_FAILS }, "run_failure_reachable");
+    kani::cover!(unsafe { ENV_VALIDATE_FAILS }, "validate_failure_reachable");
+    kani::cover!(unsafe { !ENV_RUN_FAILS && !ENV_VALIDATE_FAILS }, "success_reachable");
+}
+
+#[kani::proof]
+#[kani::unwind(12)]
+#[kani::stub(std::fmt::format, no_format)]
+#[kani::stub(std::collections::hash_map::RandomState::new, env_random_state)]
+fn c17_leader_rpc_failures_with_output_destination() {
+    leader_rpcs(true);
+    kani::cover!(unsafe { ENV_RUN_FAILS && !ENV_VALIDATE_FAILS }, "run_failure_reachable");
+    kani::cover!(unsafe { ENV_VALIDATE_FAILS }, "validate_failure_reachable");
+    kani::cover!(unsafe { !ENV_RUN_FAILS && !ENV_VALIDATE_FAILS }, "success_reachable");
+}
+
+/// C17 - the task that sends this party's constants. A failed constants round: the output
+/// destination (if any) gets exactly one error and the policy ends at this party: the task
+/// reports Stop/Cancel to the actor or does not hand the client back (internal_consts_sent() then
+/// stops the machine) - it does not report InternalConstsSent with the client as after success.
+fn consts_task(has_out: bool) {
+    let cf: bool = kani::any();
+    reset_answers();
+    unsafe { ENV_CONSTS_FAIL = cf };
+    let (tx, mut rx) = oneshot::channel::<NoClient>();
+    seg_sc_consts_task(NoClient, policy_with_output(has_out), tx, EnvCmdTx);
+    let client_back = rx.try_recv().is_ok();
+    let (outputs, out_err, cmd, cmds) = unsafe { (ENV_OUTPUTS, ENV_OUTPUT_WAS_ERR, ENV_CMD, ENV_CMDS) };
+    if cf {
+        assert!(outputs == has_out as u8 && (!has_out || out_err), "C17:consts:output-destination-gets-exactly-one-error-when-a-constants-call-fails");
+        let ends = cmd == CMD_STOP || cmd == CMD_CANCEL || (cmd == CMD_INTERNAL_CONSTS_SENT && !client_back);
+        assert!(cmds == 1 && ends, "C17:consts:policy-ends-at-the-caller-when-a-constants-call-fails");
+    } else {
+        assert!(client_back && cmd == CMD_INTERNAL_CONSTS_SENT && cmds == 1 && outputs == 0, "C17:consts:successful-constants-round-continues-the-run");
+    }
+    std::mem::forget(rx);
+}
+
+#[kani::proof]
+#[kani::unwind(12)]
+#[kani::stub(std::fmt::format, no_format)]
+#[kani::stub(std::collections::hash_map::RandomState::new, env_random_state)]
+fn c17_consts_rpc_failure_without_output_destination() {
+    consts_task(false);
+    kani::cover!(unsafe { ENV_CONSTS_FAIL }, "failure_reachable");
+    kani::cover!(unsafe { !ENV_CONSTS_FAIL }, "success_reachable");
+}
+
+#[kani::proof]
+#[kani::unwind(12)]
+#[kani::stub(std::fmt::format, no_format)]
+#[kani::stub(std::collections::hash_map::RandomState::new, env_random_state)]
+fn c17_consts_rpc_failure_with_output_destination() {
+    consts_task(true);
+    kani::cover!(unsafe { ENV_CONSTS_FAIL }, "failure_reachable");
+    kani::cover!(unsafe { !ENV_CONSTS_FAIL }, "success_reachable");
 }
